@@ -134,6 +134,12 @@ Theorem C01_enum_alias_ok : forall name lits rest,
   exists t, p_item (enum_toks name lits ++ rest) = Some (ITypeAlias name [] t, rest) /\ item_ok (ITypeAlias name [] t) = true.
 Proof. exact enum_alias_ok. Qed.
 
+(* an enum without listed variants (none declared, or all skipped) is printed as the uninhabited type *)
+Theorem C01_enum_alias_never_ok : forall name rest, is_binding_name name = true ->
+  p_item (never_toks name ++ rest) = Some (ITypeAlias name [] (TyRef [L "never"] []), rest) /\
+  item_ok (ITypeAlias name [] (TyRef [L "never"] [])) = true.
+Proof. exact enum_alias_never_ok. Qed.
+
 (* params interface template: members as above, channel members key: Channel<T>; and the fixed index signature;
    on the model's commands every hole premise is discharged *)
 Theorem C01_skeleton_params_interface : forall name ms rest,
@@ -196,6 +202,9 @@ Example C01_ex_params_tokens :
   is_binding_name (ty_ts ex_cmd ++ L "Params") = true /\
   forallb (fun p => type_in_budget g0 (snd p)) (c_values ex_cmd) = true /\ forallb (fun ch => chan_in_budget g0 (snd ch)) (c_channels ex_cmd) = true.
 Proof. exact params_tokens_example. Qed.
+Example C01_ex_empty_enum : lexed (enum_chunks g0 ex_empty_enum) = never_toks (L "Status") /\ c01_ok (text (enum_chunks g0 ex_empty_enum)) = true /\
+  c01_ok (text (zod_struct_chunks g0 ex_empty_enum)) = true.
+Proof. exact never_example. Qed.
 Example C01_ex_index : lexed (all_chunks (index_file true)) = flat_map star_toks [L "./types"; L "./commands"; L "./events"].
 Proof. exact index_example. Qed.
 Example C01_ex_skeleton : c01_ok (text (interface_chunks g0 ex_struct)) = true /\ bad_holes (interface_chunks g0 ex_struct) = [] /\
@@ -225,6 +234,7 @@ Print Assumptions C01_type_hole_text.
 Print Assumptions C01_skeleton_interface.
 Print Assumptions C01_interface_tokens_ok.
 Print Assumptions C01_enum_alias_ok.
+Print Assumptions C01_enum_alias_never_ok.
 Print Assumptions C01_skeleton_params_interface.
 Print Assumptions C01_params_interface_tokens_ok.
 Print Assumptions C01_index_tokens_ok.
